@@ -15,6 +15,8 @@ pub(crate) struct TestConn {
     share: bool,
     open: std::sync::Arc<std::sync::atomic::AtomicBool>,
     ready: std::sync::Arc<std::sync::atomic::AtomicBool>,
+    /// (uri, version) of every request this connection (any handle of it) was given, in order
+    sent: std::sync::Arc<std::sync::Mutex<Vec<(String, http::Version)>>>,
 }
 static NEXT: std::sync::atomic::AtomicUsize = std::sync::atomic::AtomicUsize::new(1);
 impl TestConn {
@@ -22,7 +24,7 @@ impl TestConn {
     fn h2() -> Self { Self::mk(true) }
     fn mk(share: bool) -> Self {
         Self { id: NEXT.fetch_add(1, std::sync::atomic::Ordering::SeqCst), share,
-               open: std::sync::Arc::new(true.into()), ready: std::sync::Arc::new(true.into()) }
+               open: std::sync::Arc::new(true.into()), ready: std::sync::Arc::new(true.into()), sent: Default::default() }
     }
     fn id(&self) -> usize { self.id }
 }
@@ -31,6 +33,7 @@ impl crate::client::conn::Connection<crate::Body> for TestConn {
     type Error = std::io::Error;
     type Future = std::future::Ready<Result<http::Response<crate::Body>, Self::Error>>;
     fn send_request(&mut self, request: http::Request<crate::Body>) -> Self::Future {
+        self.sent.lock().unwrap().push((request.uri().to_string(), request.version()));
         std::future::ready(Ok(http::Response::new(request.into_body())))
     }
     fn poll_ready(&mut self, _cx: &mut std::task::Context<'_>) -> std::task::Poll<Result<(), Self::Error>> {
@@ -47,7 +50,7 @@ impl PoolableConnection<crate::Body> for TestConn {
     fn is_open(&self) -> bool { self.open.load(std::sync::atomic::Ordering::SeqCst) }
     fn can_share(&self) -> bool { self.share }
     fn reuse(&mut self) -> Option<Self> {
-        if self.share { Some(Self { id: self.id, share: true, open: self.open.clone(), ready: self.ready.clone() }) } else { None }
+        if self.share { Some(Self { id: self.id, share: true, open: self.open.clone(), ready: self.ready.clone(), sent: self.sent.clone() }) } else { None }
     }
 }
 /// protocol that turns a mock stream into a contract-honouring `TestConn` (exclusive unless the stream multiplexes)
@@ -776,5 +779,162 @@ async fn pooled_accessors_forward() {
         assert_eq!(polled.is_ready(), ready, "poll_ready is not the connection's");
         assert_eq!((&*p).id(), id, "poll_ready replaced the held connection");
         std::mem::forget(p);
+    }
+}
+
+// ======================= round 4: scenarios for changes that leave the verifier's subset =======================
+
+/// wr.ready_only / pdrop.excl [C02]: a released exclusive connection whose previous exchange never finishes (its
+/// `poll_ready` stays Pending while `is_open()` is true) is never handed out again - however long it stays busy, in
+/// particular not once it has been busy for longer than the pool's idle timeout.  Neither a waiting request nor the
+/// idle list may get it.  One-sided: correct code never returns it, so a slow machine cannot make this fail.
+#[tokio::test]
+async fn busy_connection_not_returned_after_idle_timeout() {
+    let timeout = Duration::from_millis(25);
+    for with_waiter in [true, false] {
+        let mut c = cfg(5);
+        c.idle_timeout = Some(timeout);
+        let pool: TPool = Pool::new(c);
+        let t = pool.keys.lock().insert(example_key());
+        let (tx, mut rx) = tokio::sync::oneshot::channel();
+        if with_waiter {
+            pool.inner.lock().waiting.entry(t).or_default().push_back(tx);
+        } else {
+            drop(tx);
+        }
+        let conn = TestConn::h1();
+        let ready = conn.ready.clone();
+        ready.store(false, std::sync::atomic::Ordering::SeqCst); // the previous exchange is still going on
+        drop(Pooled { connection: Some(conn), token: t, pool: pool.as_ref() });
+        let t0 = std::time::Instant::now();
+        while t0.elapsed() < 4 * timeout {
+            tokio::time::sleep(timeout / 2).await;
+            if with_waiter {
+                assert!(rx.try_recv().is_err(),
+                    "a connection that never reported ready again was handed to a waiting request (after {:?}, idle_timeout {timeout:?})", t0.elapsed());
+            }
+            let n = pool.inner.lock().idle.get(&t).map(raw_len).unwrap_or(0);
+            assert_eq!(n, 0, "a connection that never reported ready again was put into the idle list (after {:?}, idle_timeout {timeout:?})", t0.elapsed());
+        }
+        // ... and a request issued now dials instead of being given the busy connection
+        let got = tokio::time::timeout(Duration::from_secs(2), pool.checkout(example_key(), false,
+            test_connector(MockTransport::single(), HttpProtocol::Http1))).await.expect("checkout hangs").expect("checkout fails");
+        assert!(got.ready.load(std::sync::atomic::Ordering::SeqCst), "a request was given the connection that is still serving the previous one");
+        std::mem::forget(got);
+        ready.store(true, std::sync::atomic::Ordering::SeqCst);
+    }
+}
+
+/// pop.fresh / idle.pop.fresh / frame.idle_api [C05]: the idle timeout applies to multiplexed (shareable) connections as
+/// well: an HTTP/2-like connection that sat in the pool for longer than a non-zero idle timeout is not handed out -
+/// neither by `pop` nor to a request through `checkout`.  One-sided (sleeping longer only makes the entry older).
+#[tokio::test]
+async fn pop_skips_expired_shared() {
+    let timeout = Duration::from_millis(20);
+    for through_checkout in [false, true] {
+        let mut c = cfg(5);
+        c.idle_timeout = Some(timeout);
+        let pool: TPool = Pool::new(c);
+        let t = pool.keys.lock().insert(example_key());
+        let old = TestConn::h2();
+        let old_id = old.id();
+        pool.inner.lock().push(t, old, pool.as_ref());
+        std::thread::sleep(5 * timeout);
+        if through_checkout {
+            let got = tokio::time::timeout(Duration::from_secs(2), pool.checkout(example_key(), true,
+                test_connector(MockTransport::reusable(), HttpProtocol::Http2))).await.expect("checkout hangs").expect("checkout fails");
+            assert_ne!(got.id(), old_id, "a request was served on a multiplexed connection that sat idle for longer than the idle timeout");
+        } else {
+            let got = pool.inner.lock().pop(t);
+            assert!(got.is_none(), "pop handed out a multiplexed connection that sat idle for longer than the idle timeout");
+        }
+    }
+    // a fresh multiplexed connection IS handed out (the scenario above does not pass by refusing everything)
+    let mut c = cfg(5);
+    c.idle_timeout = Some(Duration::from_secs(3600));
+    let pool: TPool = Pool::new(c);
+    let t = pool.keys.lock().insert(example_key());
+    let fresh = TestConn::h2();
+    let id = fresh.id();
+    pool.inner.lock().push(t, fresh, pool.as_ref());
+    assert_eq!(pool.inner.lock().pop(t).map(|c| c.id()), Some(id), "a fresh multiplexed idle connection was not handed out");
+}
+
+/// frame.idle_writers / frame.idle_list_writers / push.idle_bound / cdrop.frame [C15]: a request that was given an idle
+/// connection by `checkout()` and is cancelled before its first poll must not push the origin's idle list over the limit,
+/// whatever happened to the list in between (here: another connection was released and filled it up again)
+#[tokio::test]
+async fn idle_bound_unpolled_checkout_dropped() {
+    for max in [1usize, 2] {
+        let pool: TPool = Pool::new(cfg(max));
+        let key = example_key();
+        let t = pool.keys.lock().insert(key.clone());
+        for _ in 0..max {
+            pool.inner.lock().push(t, TestConn::h1(), pool.as_ref());
+        }
+        let bound = |when: &str| {
+            let n = pool.inner.lock().idle.get(&t).map(raw_len).unwrap_or(0);
+            assert!(n <= max, "{when}: pool holds {n} idle connections for one origin, max_idle_per_host = {max}");
+        };
+        // takes an idle connection out of the list; the future is never polled
+        let unpolled = pool.checkout(key.clone(), false, test_connector(MockTransport::single(), HttpProtocol::Http1));
+        bound("after checkout()");
+        // meanwhile another connection for the origin is released: the list is full again
+        pool.inner.lock().push(t, TestConn::h1(), pool.as_ref());
+        bound("after a release");
+        drop(unpolled); // the request is cancelled before its first poll
+        for _ in 0..10 { tokio::task::yield_now().await; }
+        let n = pool.inner.lock().idle.get(&t).map(raw_len).unwrap_or(0);
+        assert!(n <= max, "pool holds {n} idle connections for one origin, max_idle_per_host = {max}");
+    }
+}
+
+/// pooled.version / pooled.send_request.* / pooled.reuse.* [C13,C02,C04,C06]: the handle is transparent on the request path:
+/// `version()` is the held connection's (whatever the token - a handle of a client WITHOUT a pool carries the zero token
+/// around an HTTP/1.1 connection), `send_request` gives the held connection exactly that request, once, and `reuse()` is
+/// the held connection's `reuse()` under the same token and pool reference
+#[tokio::test]
+async fn pooled_request_path_is_transparent() {
+    use crate::client::conn::Connection as _;
+    let pool: TPool = Pool::new(cfg(5));
+    let t = pool.keys.lock().insert(example_key());
+    for share in [false, true] {
+        for (token, poolref) in [(t, pool.as_ref()), (Token::zero(), pool.as_ref()), (Token::zero(), PoolRef::none()), (t, PoolRef::none())] {
+            let c = TestConn::mk(share);
+            let (id, want, sent) = (c.id(), c.version(), c.sent.clone());
+            let has_pool = !poolref.is_none();
+            let mut p = Pooled { connection: Some(c), token, pool: poolref };
+            assert_eq!(p.version(), want, "version() of a handle (token {token:?}, pool {has_pool}) is not the version of the connection it holds");
+            // send_request: exactly this request, once
+            for (k, (uri, version)) in [("http://a.test/first?x=1", http::Version::HTTP_10), ("/second", http::Version::HTTP_11), ("https://b.test/", http::Version::HTTP_2)].into_iter().enumerate() {
+                let mut req = http::Request::post(uri).body(crate::Body::empty()).unwrap();
+                *req.version_mut() = version;
+                let resp = p.send_request(req).await;
+                assert!(resp.is_ok(), "send_request through the handle failed");
+                let log = sent.lock().unwrap().clone();
+                assert_eq!(log.len(), k + 1, "the held connection was given {} requests after {} send_request calls on the handle", log.len(), k + 1);
+                assert_eq!(log[k], (uri.to_string(), version), "the held connection was given another request than the handle");
+            }
+            assert_eq!((&*p).id(), id, "send_request replaced the held connection");
+            assert_eq!(p.version(), want);
+            // pooled.deref_mut: the mutable borrow is of the held connection, and leaves token / pool reference alone
+            { let c: &mut TestConn = &mut *p; assert_eq!(c.id(), id, "deref_mut does not yield the held connection"); }
+            assert_eq!(p.token, token, "deref_mut changed the handle's token");
+            // reuse
+            match p.reuse() {
+                Some(second) => {
+                    assert!(share, "reuse() of a handle around an exclusive connection produced a second handle");
+                    assert_eq!((&*second).id(), id, "the second handle holds another connection");
+                    assert_eq!(second.token, token, "the second handle carries another token");
+                    assert_eq!(second.pool.is_none(), !has_pool, "the second handle carries another pool reference");
+                    assert_eq!(second.version(), want);
+                    std::mem::forget(second);
+                }
+                None => assert!(!share, "reuse() of a handle around a multiplexed connection produced nothing"),
+            }
+            assert_eq!((&*p).id(), id, "reuse() replaced the held connection");
+            assert_eq!(p.token, token);
+            std::mem::forget(p);
+        }
     }
 }
